@@ -263,6 +263,15 @@ func (idx *HNSWIndex) Add(vector VectorNode) error {
 		idx.nextID++
 	}
 
+	// Re-adding an ID whose removal is still pending: apply the pending removals first,
+	// otherwise the tombstone would hide the new vector (and the next Flush would drop it)
+	if idx.deletedNodes.Contains(id) {
+		if err := idx.flushLocked(); err != nil {
+			idx.mu.Unlock()
+			return err
+		}
+	}
+
 	// Update max level
 	if level > idx.maxLevel {
 		idx.maxLevel = level
@@ -362,6 +371,11 @@ func (idx *HNSWIndex) Flush() error {
 	idx.mu.Lock()
 	defer idx.mu.Unlock()
 
+	return idx.flushLocked()
+}
+
+// flushLocked is Flush for callers that already hold the write lock.
+func (idx *HNSWIndex) flushLocked() error {
 	// Quick exit if nothing to flush
 	deletedCount := int(idx.deletedNodes.GetCardinality())
 	if deletedCount == 0 {
